@@ -89,7 +89,10 @@ def run(ctx):
                               "garden format <file>")
                 continue
             if F2 != F:
-                sig = f"not idempotent: {classify_second_pass(F, F2)} ({'input with parse errors' if errs else 'parseable input'})"
+                # inputs that do not parse: the signature names the kind of program and the edit that broke it, so that a
+                # recorded finding for one broken construct does not cover another
+                where = f"input with parse errors: {desc['kind']} {desc['change']}" if errs and desc.get("group") == "edits" else ("input with parse errors" if errs else "parseable input")
+                sig = f"not idempotent: {classify_second_pass(F, F2)} ({where})"
                 detail = dict(desc, input=s, formatted=F, formatted_twice=F2)
                 ctx.violation(sig, detail, "garden format <file with `formatted`> | diff - <file>;  garden format --check <file with `formatted`>")
                 v = ctx.violations[sig]
